@@ -82,7 +82,7 @@ func pipeOpts(mode string) gen.Opts {
 		return gen.Opts{MaxObjs: 4, MaxEdges: 3, Containers: true, Near: true, SpecialOnly: "near", Sizes: true, LabelPos: true}
 	case "render3": // render2 plus connections with a border radius and labels on both arrowheads
 		o := pipeOpts("render2")
-		o.EdgeExtras = true
+		o.EdgeExtras, o.Tables = true, true
 		return o
 	case "render3-plain":
 		o := pipeOpts("render3")
